@@ -33,8 +33,9 @@ MANIFEST = {
 # span 3 differs from span 0 by less than a millisecond at both ends (never "identical"); it only occurs in the
 # patterns of NEAR (the main enumeration is over spans 0-2)
 # span 4 starts at time zero
-SPANS = [(1000000, 2000000), (2000000, 3500000), (4000000, 4000001), (1000400, 2000300), (0, 1000000)]
-NEAR = [(4,), (4, 4), (4, 0), (4, 4, 1), (4, 4, 4), (0, 4, 4), (4, 1, 4, 4), (0, 3), (3, 0), (3, 3), (0, 3, 0), (0, 0, 3), (3, 0, 0), (3, 3, 0), (1, 0, 3), (0, 3, 1), (0, 3, 3, 0), (2, 3, 0, 1), (0, 3, 0, 3, 0)]
+# spans 5 and 6 share only the start / only the end with span 0
+SPANS = [(1000000, 2000000), (2000000, 3500000), (4000000, 4000001), (1000400, 2000300), (0, 1000000), (1000000, 3000000), (500000, 2000000)]
+NEAR = [(0, 5), (5, 0), (0, 6), (6, 0), (0, 5, 0), (6, 0, 5), (0, 0, 5), (5, 5, 0), (4,), (4, 4), (4, 0), (4, 4, 1), (4, 4, 4), (0, 4, 4), (4, 1, 4, 4), (0, 3), (3, 0), (3, 3), (0, 3, 0), (0, 0, 3), (3, 0, 0), (3, 3, 0), (1, 0, 3), (0, 3, 1), (0, 3, 3, 0), (2, 3, 0, 1), (0, 3, 0, 3, 0)]
 SKEWS = [0.5, 1, 1.001, 4]
 OFFSETS = ["-10s", "-first", "-1us", "0", "+1s"]
 
@@ -50,6 +51,7 @@ def build(patterns):
 
     caps = {}
     model = {}
+    first_lang_nodes = []
     for lang, pat in patterns:
         cl = CaptionList()
         ml = []
@@ -71,6 +73,11 @@ def build(patterns):
                 nodes = [CaptionNode.create_text(f"{lang}{i}a"), CaptionNode.create_break(), CaptionNode.create_text(f"{lang}{i}b"), CaptionNode.create_break()]
             else:
                 nodes = [CaptionNode.create_text(f"{lang}{i}")]
+            if lang != patterns[0][0] and i < len(first_lang_nodes):
+                # an untranslated line: the second language's caption is backed by the very node list of the first one's
+                nodes = first_lang_nodes[i]
+            elif lang == patterns[0][0]:
+                first_lang_nodes.append(nodes)
             cl.append(Caption(s, e, nodes))
             ml.append((Fraction(s), Fraction(e), tuple(node_val(n) for n in nodes)))
         caps[lang] = cl
